@@ -87,11 +87,13 @@ class StrV:
 
 
 class BytesV:
-  """Symbolic bytes value: length (int term) and big-endian integer value (0 <= val < 256**length)."""
-  __slots__ = ("length", "val")
+  """Symbolic bytes value: length (int term) and big-endian integer value (0 <= val < 256**length).
+  `le`, when not None, is the little-endian reading of the same bytes (known for x.to_bytes(n, 'little') and what is
+  sliced / concatenated from such values): byte i has weight 256**i in `le` and 256**(length-1-i) in `val`."""
+  __slots__ = ("length", "val", "le")
 
-  def __init__(self, length, val):
-    self.length, self.val = length, val
+  def __init__(self, length, val, le=None):
+    self.length, self.val, self.le = length, val, le
 
   def __repr__(self):
     return f"BytesV(len={self.length}, val={self.val})"
